@@ -632,7 +632,16 @@ namespace awkward {
 
     util::Parameters params;
     if (generator_.get()->form().get() != nullptr) {
-      sliceform = generator_.get()->form().get()->getitem_field(key);
+      try {
+        sliceform = generator_.get()->form().get()->getitem_field(key);
+      }
+      catch (std::invalid_argument&) {
+        // a Form that cannot project fields although the array can (UnionForm):
+        // go without a prediction rather than refuse what the array would do
+        sliceform = FormPtr(nullptr);
+      }
+    }
+    if (sliceform.get() != nullptr) {
       std::string record = sliceform.get()->purelist_parameter("__record__");
       if (record != std::string("null")) {
         params["__record__"] = record;
@@ -674,7 +683,13 @@ namespace awkward {
     FormPtr sliceform(nullptr);
 
     if (generator_.get()->form().get() != nullptr) {
-      sliceform = generator_.get()->form().get()->getitem_fields(keys);
+      try {
+        sliceform = generator_.get()->form().get()->getitem_fields(keys);
+      }
+      catch (std::invalid_argument&) {
+        // see getitem_field
+        sliceform = FormPtr(nullptr);
+      }
     }
 
     ArrayGeneratorPtr generator = std::make_shared<SliceGenerator>(
